@@ -22,7 +22,10 @@
 ##################################################################
 def convert2Es6Format(value):
 # Convert double/float to str using the native Python formatter
-    fvalue = float(value)
+    try:
+        fvalue = float(value)
+    except OverflowError:
+        raise ValueError("Invalid JSON number: integer out of range")
 #
 # Zero is a special case.  The following line takes "-0" case as well
 #
